@@ -18,33 +18,33 @@ def det(name):
 
 COMMON_ASSUMPTIONS = [
     "simulated AWS (harness/sim/aws.go) follows the AWS API reference only as far as escalator can observe it",
-    "NewController/NewClient/Builder.Build are mirrored by the verif-tagged hooks, not executed",
+    "in the history checks NewController/NewClient/Builder.Build are mirrored by the verif-tagged hooks; NewClient's informer wiring is executed by the TestWiring* checks",
     "escalator is compiled with go1.26.8 (testing/synctest virtual time)",
 ]
 
 CHECKS = {
-    "C01": {"level": "exploration", "tests": [hist("TestC01"), hist("TestC01Big", q=300, t=6000, steps=8, tsteps=10)], "assumptions": COMMON_ASSUMPTIONS},
+    "C01": {"level": "exploration", "tests": [hist("TestC01"), hist("TestC01Big", q=300, t=6000, steps=8, tsteps=10), direct("TestWiringC01", q=25, t=150, shards=4)], "assumptions": COMMON_ASSUMPTIONS},
     "C02": {"level": "exploration", "tests": [hist("TestC02")], "assumptions": COMMON_ASSUMPTIONS},
     "C03": {"level": "exploration", "tests": [hist("TestC03"), hist("TestC03Big", q=300, t=6000, steps=8, tsteps=10)], "assumptions": COMMON_ASSUMPTIONS},
     "C04": {"level": "exploration", "tests": [hist("TestC04"), hist("TestC04Big", q=300, t=6000, steps=8, tsteps=10)], "assumptions": COMMON_ASSUMPTIONS},
     "C05": {"level": "exploration", "tests": [
         det("TestC05Grid"),
-        direct("TestC05Random", q=100000, t=20000000), hist("TestC05History")], "assumptions": COMMON_ASSUMPTIONS},
+        direct("TestC05Random", q=100000, t=20000000), hist("TestC05History"), direct("TestWiringC05", q=25, t=150, shards=4)], "assumptions": COMMON_ASSUMPTIONS},
     "C06": {"level": "exploration", "tests": [hist("TestC06")], "assumptions": COMMON_ASSUMPTIONS},
     "C07": {"level": "exploration", "tests": [hist("TestC07"), hist("TestC07Big", q=300, t=6000, steps=8, tsteps=10)], "assumptions": COMMON_ASSUMPTIONS},
-    "C08": {"level": "exploration", "tests": [hist("TestC08"), hist("TestC08Big", q=300, t=6000, steps=8, tsteps=10)], "assumptions": COMMON_ASSUMPTIONS},
-    "C09": {"level": "exploration", "tests": [hist("TestC09"), hist("TestC09Twin", q=400, t=10000), hist("TestC09Big", q=300, t=6000, steps=8, tsteps=10)], "assumptions": COMMON_ASSUMPTIONS},
-    "C10": {"level": "exploration", "tests": [hist("TestC10"), hist("TestC10Twin", q=400, t=10000), hist("TestC10Big", q=300, t=6000, steps=8, tsteps=10)], "assumptions": COMMON_ASSUMPTIONS},
+    "C08": {"level": "exploration", "tests": [hist("TestC08"), hist("TestC08Big", q=300, t=6000, steps=8, tsteps=10), direct("TestWiringC08", q=25, t=150, shards=4)], "assumptions": COMMON_ASSUMPTIONS},
+    "C09": {"level": "exploration", "tests": [hist("TestC09"), hist("TestC09Twin", q=400, t=10000), hist("TestC09Big", q=300, t=6000, steps=8, tsteps=10), direct("TestWiringC09", q=25, t=150, shards=4)], "assumptions": COMMON_ASSUMPTIONS},
+    "C10": {"level": "exploration", "tests": [hist("TestC10"), hist("TestC10Twin", q=400, t=10000), hist("TestC10Big", q=300, t=6000, steps=8, tsteps=10), direct("TestWiringC10", q=25, t=150, shards=4)], "assumptions": COMMON_ASSUMPTIONS},
     "C11": {"level": "exploration", "tests": [hist("TestC11"), hist("TestC11Twin", q=400, t=10000)], "assumptions": COMMON_ASSUMPTIONS},
     "C12": {"level": "exploration", "tests": [hist("TestC12"), hist("TestC12Twin", q=800, t=14000)], "assumptions": COMMON_ASSUMPTIONS},
-    "C13": {"level": "exploration", "tests": [direct("TestC13", q=20000, t=2000000), direct("TestC13Percent", q=50000, t=5000000), hist("TestC13History", q=500, t=15000)], "assumptions": COMMON_ASSUMPTIONS},
-    "C14": {"level": "exploration", "tests": [det("TestC14"), direct("TestC14Random", q=20000, t=3000000), hist("TestC14History", q=600, t=15000)], "assumptions": ["the property sentence is restated independently in harness/ref/ref.go"]},
-    "C15": {"level": "exploration", "tests": [direct("TestC15Direct", q=3000, t=300000), hist("TestC15History")], "assumptions": COMMON_ASSUMPTIONS},
-    "C16": {"level": "exploration", "tests": [det("TestC16Validation"), direct("TestC16ValidationRandom", q=20000, t=3000000), direct("TestC16Decode", q=2000, t=200000),
+    "C13": {"level": "exploration", "tests": [direct("TestC13", q=20000, t=2000000), direct("TestC13Percent", q=50000, t=5000000), hist("TestC13History", q=500, t=15000), direct("TestWiringC13", q=25, t=150, shards=4)], "assumptions": COMMON_ASSUMPTIONS},
+    "C14": {"level": "exploration", "tests": [det("TestC14"), direct("TestC14Random", q=20000, t=3000000), hist("TestC14History", q=600, t=15000), direct("TestWiringC14", q=25, t=150, shards=4)], "assumptions": ["the property sentence is restated independently in harness/ref/ref.go"]},
+    "C15": {"level": "exploration", "tests": [direct("TestC15Direct", q=3000, t=300000), hist("TestC15History"), direct("TestWiringC15", q=25, t=150, shards=4)], "assumptions": COMMON_ASSUMPTIONS},
+    "C16": {"level": "exploration", "tests": [det("TestC16Validation"), direct("TestC16ValidationRandom", q=20000, t=3000000), direct("TestC16Decode", q=2000, t=200000), direct("TestC16Gate", q=100, t=600, shards=6),
                                               {"name": "FuzzC16Decode", "fuzz": True, "quick": None, "thorough": {"checks": 0, "shards": 1, "timeout": 400, "fuzztime": "120s"}}],
-            "assumptions": ["cmd/main.go's validation gate is taken on reading; validator and decoder are checked as functions"]},
+            "assumptions": ["the start-up gate is exercised by running the real cmd/main.go binary up to the Kubernetes client set-up; what main does with the decoded options after the gate is taken on reading"]},
     "C17": {"level": "exploration", "tests": [direct("TestC17", q=3000, t=400000)], "assumptions": COMMON_ASSUMPTIONS},
     "C18": {"level": "fault_enumeration", "tests": [direct("TestC18", q=60, t=800), direct("TestC18Consecutive", q=300, t=30000), hist("TestC18History", q=500, t=15000)], "assumptions": COMMON_ASSUMPTIONS},
-    "C19": {"level": "fault_enumeration", "tests": [direct("TestC19Direct", q=3000, t=400000), hist("TestC19History"), hist("TestC19HistoryBig", q=300, t=6000, steps=8, tsteps=10)], "assumptions": COMMON_ASSUMPTIONS},
+    "C19": {"level": "fault_enumeration", "tests": [direct("TestC19Direct", q=3000, t=400000), hist("TestC19History"), hist("TestC19HistoryBig", q=300, t=6000, steps=8, tsteps=10), direct("TestWiringC19", q=25, t=150, shards=4)], "assumptions": COMMON_ASSUMPTIONS},
     "C20": {"level": "fault_enumeration", "tests": [hist("TestC20"), hist("TestC20Dry", q=600, t=15000), hist("TestC20Enum", q=100, t=1500, steps=20, tsteps=25)], "assumptions": COMMON_ASSUMPTIONS},
 }
